@@ -91,7 +91,7 @@ func (p *retryProp) Assumptions() []string {
 func (p *retryProp) Gen(r *Rand, tier string, idx int) any {
 	rp := &RetryParams{}
 	n := r.Intn(9)
-	kinds := []string{"408", "429", "500", "503", "timeout", "timeout", "neterr", "401-basic", "401-bearer", "404", "200", "429:1", "429:2", "429:7", "408", "503", "401-bearer", "401-stale"}
+	kinds := []string{"408", "429", "500", "503", "timeout", "timeout", "neterr", "401-basic", "401-bearer", "404", "200", "429:1", "429:2", "429:7", "408", "503", "401-bearer", "401-stale", "404:1", "403:2"}
 	for i := 0; i < n; i++ {
 		rp.Behaviours = append(rp.Behaviours, pick(r, kinds))
 	}
@@ -352,6 +352,10 @@ func (s *retryServer) RoundTrip(req *http.Request) (*http.Response, error) {
 			plan(503, nil, "")
 		case b == "404":
 			plan(404, nil, "")
+		case b == "404:1", b == "403:2":
+			// a non-retryable answer that happens to carry Retry-After
+			st, _ := strconv.Atoi(b[:3])
+			plan(st, http.Header{"Retry-After": {b[4:]}}, "")
 		case b == "timeout":
 			rec.errKind = "timeout"
 			respErr = timeoutErr{}
